@@ -48,6 +48,7 @@ def Cache.push (c : Cache) (fix : Bool) (r : List TOp) (x : TOp) : Cache :=
   { keys := keys, ev := ev, g := g, log := c.log ++ recContrib fix r x }
 
 structure D where
+  fix : Bool := false        -- `VERIF_C01_FIX=1`: the known finding no longer reproduces, use the repaired variant
   now : Nat := base
   mono : Bool := true
   h : List TOp := []
@@ -99,7 +100,8 @@ def specConc (d : D) (c : Cache) (k : Key) : Option Int :=
   if present then some (c.gOf k) else none
 
 /-- answer of the spec: the demanded value, flagged when the as-is account differs from it -/
-def twoSided (vT vF : String) : String := if vT = vF then vT else "?known:panic-pass-gauge:" ++ vT
+def twoSided (fix : Bool) (vT vF : String) : String :=
+  if vT = vF || fix then vT else "?known:panic-pass-gauge:" ++ vT
 
 def showOptNat (f : Bucket → Nat) : Option Bucket → String
   | none => "nil"
@@ -114,7 +116,7 @@ def showOptInt : Option Int → String
     of the attached node); otherwise a hotspot rule on argument 0 panics on an unhashable value -/
 def defaultChain (d : D) (spec : Bool) (res : String) (batch : Nat) (args : List String) : Chain :=
   let conc : Int :=
-    if spec then d.cF.gOf (some res)
+    if spec then (if d.fix then d.cT else d.cF).gOf (some res)
     else match findN d.st.nodes res with
       | some n => n.conc
       | none => 0
@@ -127,7 +129,7 @@ def defaultChain (d : D) (spec : Bool) (res : String) (batch : Nat) (args : List
 def apply (d : D) (spec : Bool) (op : Op) : D :=
   let x : TOp := (d.now, op)
   if spec then { d with cT := d.cT.push true d.h x, cF := d.cF.push false d.h x, h := x :: d.h }
-  else { d with st := step false d.st x, h := x :: d.h }
+  else { d with st := Sentinel.Entry.step d.fix d.st x, h := x :: d.h }
 
 def known (d : D) (spec : Bool) (id : Nat) : Bool :=
   if spec then (info d.h id).isSome else (findE d.st.ents id).isSome
@@ -171,19 +173,19 @@ def step (spec : Bool) (d : D) (ts : List String) (_ : String) : D × Option Str
         let k := parseKey key
         if spec then
           if !d.mono then (d, some "?") else
-          (d, some (twoSided (showOptNat (·.get ev) (specWindow d d.cT k Iv)) (showOptNat (·.get ev) (specWindow d d.cF k Iv))))
+          (d, some (twoSided d.fix (showOptNat (·.get ev) (specWindow d d.cT k Iv)) (showOptNat (·.get ev) (specWindow d d.cF k Iv))))
         else (d, some (showOptNat (·.get ev) (obsWindow d.st k Iv d.now)))
   | ["read", key, what] =>
       let k := parseKey key
       if what = "conc" then
-        if spec then (d, some (twoSided (showOptInt (specConc d d.cT k)) (showOptInt (specConc d d.cF k))))
+        if spec then (d, some (twoSided d.fix (showOptInt (specConc d d.cT k)) (showOptInt (specConc d d.cF k))))
         else (d, some (showOptInt (obsConc d.st k)))
       else
         let f : Bucket → Nat := if what = "maxconc" then (·.mc) else fun b => max 1 b.minRt
         if what ≠ "maxconc" && what ≠ "minrt" then (d, some "bad-op") else
         if spec then
           if !d.mono then (d, some "?") else
-          (d, some (twoSided (showOptNat f (specWindow d d.cT k 1000)) (showOptNat f (specWindow d d.cF k 1000))))
+          (d, some (twoSided d.fix (showOptNat f (specWindow d d.cT k 1000)) (showOptNat f (specWindow d d.cF k 1000))))
         else (d, some (showOptNat f (obsWindow d.st k 1000 d.now)))
   | ["ctx", id, what] => match id.toNat? with
       | none => (d, some "bad-op")
@@ -210,12 +212,13 @@ def step (spec : Bool) (d : D) (ts : List String) (_ : String) : D × Option Str
       if spec then
         let a := showList ((d.cT.log.drop d.drT).map showRec)
         let b := showList ((d.cF.log.drop d.drF).map showRec)
-        ({ d with drT := d.cT.log.length, drF := d.cF.log.length }, some (twoSided a b))
+        ({ d with drT := d.cT.log.length, drF := d.cF.log.length }, some (twoSided d.fix a b))
       else
         ({ d with drained := d.st.log.length }, some (showList ((d.st.log.drop d.drained).map showRec)))
   | _ => (d, some "bad-op")
 
-def run (mode : String) : IO Unit :=
-  loop ({} : D) (step (mode == "spec"))
+def run (mode : String) : IO Unit := do
+  let fix := (← IO.getEnv "VERIF_C01_FIX") == some "1"
+  loop ({ fix := fix } : D) (step (mode == "spec"))
 
 end Sentinel.Drv.C01
